@@ -188,7 +188,76 @@ var c05Families = []c05Family{
 	{"generic", "", nil},
 }
 
+// object constructors (plain, grouping, nested, as a path step) whose member
+// values bind variables that other members read: all members share one scope,
+// so the outcome must not depend on an unspecified evaluation order
+func c05MemberScope(i int64, seed uint64, r *fw.Rec) {
+	rr := prng.New(seed, 0xC05C, uint64(i))
+	n := rr.Range(3, 6)
+	vars := []string{"x", "y"}
+	var members []string
+	for k := 0; k < n; k++ {
+		v := vars[rr.Intn(2)]
+		var val string
+		switch rr.Intn(5) {
+		case 0:
+			val = fmt.Sprintf("$%s := %d", v, rr.Range(1, 9))
+		case 1:
+			val = fmt.Sprintf("$%s := $%s + 1", v, vars[rr.Intn(2)])
+		case 2:
+			val = "$" + v + " + 1"
+		case 3:
+			val = fmt.Sprintf("[$x, $y, %d]", k)
+		default:
+			val = "$" + v
+		}
+		members = append(members, fmt.Sprintf("%q: %s", fmt.Sprintf("m%d", k), val))
+	}
+	obj := "{" + strings.Join(members, ", ") + "}"
+	var prog string
+	switch rr.Intn(4) {
+	case 0:
+		prog = obj
+	case 1:
+		prog = "items" + strings.Replace(obj, `"m0"`, "k", 1)
+	case 2:
+		prog = "items." + obj
+	default:
+		prog = `{"outer": ` + obj + `, "after": [$x, $y]}`
+	}
+	doc := O{"items": A{O{"k": "a", "v": 1.0}, O{"k": "b", "v": 2.0}, O{"k": "a", "v": 3.0}}}
+	docJSON := gen.JSON(doc)
+	r.Begin(prog, docJSON)
+	r.Tag("member-scope")
+	e, co := obs.Compile(prog)
+	if e == nil {
+		r.Violation("harness:member-scope-program-does-not-compile", prog+": "+co.String(), nil)
+		return
+	}
+	first := ""
+	for k := 0; k < 8; k++ {
+		r.Evals(1)
+		o := obs.Eval(e, decodeDoc(docJSON))
+		if k == 0 {
+			r.Outcome(o.Class())
+			first = digest(o, false, false)
+			continue
+		}
+		if d := digest(o, false, false); d != first {
+			r.Violation("outcome-changed:member-evaluation-order", fmt.Sprintf("evaluation #%d of %s gave %q, the first gave %q (equal input)", k+1, prog, clipS(d), clipS(first)), map[string]any{"input": docJSON})
+			return
+		}
+	}
+	r.Nontrivial(prog)
+	r.Held()
+	r.Sample("member-scope", map[string]any{"prog": prog, "input": docJSON, "outcome": clipS(first)})
+}
+
 func c05Lib(i int64, seed uint64, r *fw.Rec) {
+	if i%9 == 8 {
+		c05MemberScope(i, seed, r)
+		return
+	}
 	rr := prng.New(seed, 0xC05B, uint64(i))
 	f := c05Families[int(i)%len(c05Families)]
 	k := rr.Range(3, 5)
